@@ -200,8 +200,8 @@ func tgEval(cs tgCase) []core.Finding {
 					}
 					fs = append(fs, core.Finding{Class: cl, What: fmt.Sprintf("Example() = %.200q is not RFC 8259 JSON\n%s", ex, tgDump(cs))})
 				}
-			case <-time.After(5 * time.Second):
-				fs = append(fs, core.Finding{Class: "example:does-not-terminate", What: "Example() did not return within 5s\n" + tgDump(cs)})
+			case <-time.After(20 * time.Second):
+				fs = append(fs, core.Finding{Class: "example:does-not-terminate", What: "Example() did not return within 20s\n" + tgDump(cs)})
 			}
 		}
 		return fs
